@@ -169,7 +169,8 @@ type DecCase struct {
 	// returns nil), which the io.Writer contract does not ask for.
 	WriterFlush bool `json:"writerFlush,omitempty"`
 	// PreCap (dbuf): the caller hands in an array of this capacity in
-	// DecoderBuffer.Data before Init (the buffer makes use of it).
+	// DecoderBuffer.Data before Init (the buffer makes use of it); -1: an
+	// empty slice that is not nil (capacity 0).
 	PreCap int64 `json:"preCap,omitempty"`
 }
 
@@ -180,6 +181,9 @@ type DecCase struct {
 var hugeArray []byte
 
 func preCapSlice(n int64) []byte {
+	if n < 0 {
+		return []byte{}
+	}
 	if n <= 1<<20 {
 		return make([]byte, 0, n)
 	}
@@ -274,7 +278,7 @@ func newDecExec(c DecCase) (*decExec, error) {
 		switch c.Vehicle {
 		case "dbuf":
 			x.buf = new(lz.DecoderBuffer)
-			if c.PreCap > 0 {
+			if c.PreCap != 0 {
 				x.buf.Data = preCapSlice(c.PreCap)
 			}
 			err = x.buf.Init(cfg)
@@ -830,6 +834,11 @@ func (x *decExec) doWriteBlock(op DOp) {
 	}
 	if n != len(x.all)-start {
 		x.report("C17", "%s returned n=%d but the call appended %d bytes (k=%d, l=%d, err=%v)", what, n, len(x.all)-start, k, l, err)
+		if stopAtBad {
+			// what a rejection reports as consumed has to describe what the
+			// buffer holds
+			x.report("C05", "%s rejected sequence %d (%v) and reports n=%d bytes written, but the %d sequences and %d literal bytes it reports as consumed expand to %d bytes", what, k, err, n, k, l, len(x.all)-start)
+		}
 	}
 	if x.buf != nil && len(x.buf.Data)-st.lenData < len(x.all)-start {
 		x.shrinkDuringBlock++
